@@ -202,10 +202,27 @@ def classify(e):
     return "internal", cls, msg[:200], where + " | " + traceback.format_exception_only(type(e), e)[-1][:120]
 
 
+def _dtype_type_error(e):
+    """a jax TypeError about branch / carry types that differ in dtype only (two float dtypes named, no shape complaint)"""
+    import re
+    if type(e).__name__ != "TypeError":
+        return False
+    msg = str(e)
+    toks = re.findall(r"(bfloat16|float16|float32|float64)\[([^\]]*)\]", msg)
+    names = {t[0] for t in toks}
+    if len(names) < 2:
+        return False
+    by_shape = {}
+    for n, sh in toks:
+        by_shape.setdefault(sh, set()).add(n)
+    same_shape_two_dtypes = any(len(v) >= 2 for v in by_shape.values())
+    return same_shape_two_dtypes and "shapes do not match" not in msg
+
+
 # ============================================================================ building the real optimizers
-def build_tree(shapes, kind):
+def build_tree(shapes, kind, dtype="float32"):
     import jax.numpy as jnp
-    arrs = [jnp.full(tuple(s), 0.5, jnp.float32) for s in shapes]
+    arrs = [jnp.full(tuple(s), 0.5, jnp.dtype(dtype)) for s in shapes]
     if kind == "dict" or not arrs:
         return {f"p{i}": a for i, a in enumerate(arrs)}
     if kind == "list":
@@ -236,7 +253,7 @@ def _grads(params, t, seed):
     import jax.numpy as jnp
     leaves, td = jax.tree_util.tree_flatten(params)
     rs = np.random.RandomState((seed * 31 + t) % (2 ** 31))
-    return jax.tree_util.tree_unflatten(td, [jnp.asarray(np.asarray(rs.randn(*l.shape), np.float32)) for l in leaves])
+    return jax.tree_util.tree_unflatten(td, [jnp.asarray(np.asarray(rs.randn(*l.shape), np.float32)).astype(l.dtype) for l in leaves])
 
 
 def _compare_state(tag, s0, s1, fails):
@@ -246,11 +263,12 @@ def _compare_state(tag, s0, s1, fails):
         fails.append(f"{tag}: tree structure of the state differs from the initial state's: {str(t1)[:300]} vs {str(t0)[:300]}")
         return
     a, b = _leaves_sd(s0), _leaves_sd(s1)
-    for i, (x, y) in enumerate(zip(a, b)):
-        if x != y:
-            path = jax.tree_util.keystr(jax.tree_util.tree_leaves_with_path(s0)[i][0])
-            fails.append(f"{tag}: state leaf {path} is {y}, initially {x}")
-            return
+    for only_shape in (True, False):     # report a shape change before a dtype change
+        for i, (x, y) in enumerate(zip(a, b)):
+            if (x[0] != y[0]) if only_shape else (x != y):
+                path = jax.tree_util.keystr(jax.tree_util.tree_leaves_with_path(s0)[i][0])
+                fails.append(("DTYPE " if x[0] == y[0] else "") + f"{tag}: state leaf {path} is {y}, initially {x}")
+                return
 
 
 def _compare_update(tag, u, params, fails):
@@ -259,10 +277,12 @@ def _compare_update(tag, u, params, fails):
     if tu != tp:
         fails.append(f"{tag}: update tree structure {str(tu)[:200]} differs from the parameters' {str(tp)[:200]}")
         return
-    for (x, y) in zip(_leaves_sd(u), _leaves_sd(params)):
-        if x != y:
-            fails.append(f"{tag}: update leaf is {x}, parameter is {y}")
-            return
+    pairs = list(zip(_leaves_sd(u), _leaves_sd(params)))
+    for only_shape in (True, False):
+        for (x, y) in pairs:
+            if (x[0] != y[0]) if only_shape else (x != y):
+                fails.append(("DTYPE " if x[0] == y[0] else "") + f"{tag}: update leaf is {x}, parameter is {y}")
+                return
 
 
 def _decl_leaf_pred(mode):
@@ -314,7 +334,7 @@ def _scan_check(update, state, params, grads, fails, tag):
         jax.eval_shape(lambda s, g: jax.lax.scan(body, s, g, length=len(grads))[0], state, gs)
     except Exception as e:  # noqa: BLE001
         kind, cls, msg, where = classify(e)
-        fails.append(f"{tag}: state rejected as jax.lax.scan carry: {cls}: {msg[:160]}")
+        fails.append(("DTYPE " if _dtype_type_error(e) else "") + f"{tag}: state rejected as jax.lax.scan carry: {cls}: {msg[:160]}")
 
 
 def run_ds(case, out):
@@ -327,7 +347,7 @@ def run_ds(case, out):
     cfg = case["cfg"]
     c = dict(DS_DEFAULTS)
     c.update(cfg)
-    params = build_tree(case["shapes"], case.get("tree", "dict"))
+    params = build_tree(case["shapes"], case.get("tree", "dict"), case.get("dtype", "float32"))
     ptd = jax.tree_util.tree_structure(params)
     fails = out["fails"]
     out["phase"] = "construct"
@@ -391,7 +411,7 @@ def run_sm3(case, out):
     import jax
     from precondition import sm3
     cfg = case["cfg"]
-    params = build_tree(case["shapes"], case.get("tree", "dict"))
+    params = build_tree(case["shapes"], case.get("tree", "dict"), case.get("dtype", "float32"))
     ptd = jax.tree_util.tree_structure(params)
     fails = out["fails"]
     out["phase"] = "construct"
@@ -451,7 +471,7 @@ def run_tf(case, out):
     import io
     import jax
     cfg = case["cfg"]
-    params = build_tree(case["shapes"], case.get("tree", "dict"))
+    params = build_tree(case["shapes"], case.get("tree", "dict"), case.get("dtype", "float32"))
     ptd = jax.tree_util.tree_structure(params)
     fails = out["fails"]
     with contextlib.redirect_stdout(io.StringIO()):
@@ -474,14 +494,22 @@ def run_tf(case, out):
 
 
 def run_case(case):
+    import jax
     out = {"case": case, "fails": [], "phase": "start"}
+    x64 = case.get("dtype") == "float64"
+    if x64:
+        jax.config.update("jax_enable_x64", True)
     try:
         {"ds": run_ds, "sm3": run_sm3, "tf": run_tf}[case["opt"]](case, out)
         out["outcome"] = {"kind": "ok"}
     except Exception as e:  # noqa: BLE001
         kind, cls, msg, where = classify(e)
         ph = out["phase"]
-        out["outcome"] = {"kind": kind, "phase": "init" if ph == "decl" else ph, "raw_phase": ph, "cls": cls, "msg": msg, "where": where}
+        out["outcome"] = {"kind": kind, "phase": "init" if ph == "decl" else ph, "raw_phase": ph, "cls": cls, "msg": msg, "where": where,
+                          "dtype_only": _dtype_type_error(e)}
+    finally:
+        if x64:
+            jax.config.update("jax_enable_x64", False)
     return out
 
 
@@ -690,6 +718,29 @@ def gen_cases(tier, seed):
                                              "weight_decay": rng.choice([0.0, 0.1]), "normalize_grads": rng.random() < 0.3},
                       "shapes": gen_shapes(rng, 300, ranks=(0, 1, 1, 2, 2, 3, 4)), "tree": rng.choice(["dict", "list", "nested"]),
                       "gseed": seed * 1000 + gid})
+    # ---- parameter dtypes other than float32 (known finding K7): a small separate stream, oracle only
+    n_dt = 12 if tier == "quick" else 60
+    for i in range(n_dt):
+        gid += 1
+        dt = ["bfloat16", "float16", "bfloat16", "float64"][i % 4]
+        opt = ["ds", "sm3", "tf", "ds", "tf"][i % 5]
+        shapes = [s for s in gen_shapes(rng, 120, allow_empty=False, ranks=(1, 2, 2, 3)) if s]
+        if opt == "ds":
+            cfg = {"block_size": rng.choice([4, 8]), "graft_type": rng.choice(GRAFTS), "eigh": rng.random() < 0.5,
+                   "best_effort_memory_usage_reduction": rng.random() < 0.3}
+            if rng.random() < 0.3:
+                cfg.update({"shard_optimizer_states": True, "num_devices_for_pjit": 2})
+        elif opt == "tf":
+            cfg = {"merge_dims": rng.choice([2, 4, 1024]), "graft": rng.choice(["SGD", "RMSPROP", "NONE"]),
+                   "graft_decay": 0.9}
+            cfg["graft_decay"] = 0.0 if cfg["graft"] != "RMSPROP" else 0.9
+            if rng.random() < 0.5:
+                cfg.update({"so_type": "SKETCHY", "sk": {"rank": 2}})
+            else:
+                cfg["sh"] = {"block_size": 4, "pf": 1, "sf": 1, "decay": 0.999}
+        else:
+            cfg = {}
+        cases.append({"opt": opt, "cfg": cfg, "shapes": shapes, "tree": "dict", "gseed": seed * 1000 + gid, "dtype": dt})
     return cases
 
 
@@ -778,6 +829,8 @@ def _first_diff(a, b, path="$"):
 
 
 def _mode(case):
+    if case.get("dtype", "float32") != "float32":
+        return "dtype"
     if case["opt"] != "ds":
         return case["opt"]
     c = case["cfg"]
@@ -852,7 +905,7 @@ def const_stage(ctx):
 
 
 def _key(case):
-    return json.dumps({k: case[k] for k in ("opt", "cfg", "shapes") if k in case}, sort_keys=True)
+    return json.dumps({k: case[k] for k in ("opt", "cfg", "shapes", "dtype") if k in case}, sort_keys=True)
 
 
 def _pairs(cases):
@@ -874,7 +927,7 @@ def execute(ctx, cases):
     chunks = kit.chunked(cases, nchunk)
     results = kit.parallel_map(worker, chunks, nproc=min(14, int(os.environ.get("C07_NPROC", "14"))), ndev=2)
     obs = [o for grp in results for o in grp]
-    reqs = [model_request(o["case"]) for o in obs]
+    reqs = [model_request({**o["case"], "cfg": o["case"]["cfg"]}) for o in obs]
     replies = ctx.driver(reqs)
     for o, rep in zip(obs, replies):
         case = o["case"]
@@ -886,12 +939,26 @@ def execute(ctx, cases):
         ctx.dist("outcome." + tag + "." + oc["kind"] + ("." + oc.get("phase", "") if oc["kind"] != "ok" else ""))
         if "corpus" in case:
             ctx.dist("corpus_cases")
-        compare(ctx, o, rep)
+        nonf32 = case.get("dtype", "float32") != "float32"
+        if nonf32:
+            ctx.dist("dtype_stream." + case["dtype"] + "." + oc["kind"])
+        else:
+            compare(ctx, o, rep)
         # ---- direct oracle
+        k7 = nonf32 and "K7" in ctx.known_ids()
+
+        def report(what, dtype_only):
+            # K7 = parameters with a dtype other than float32, and the failure is a dtype mismatch only
+            if k7 and dtype_only:
+                ctx.known_finding("K7", "parameter dtype other than float32: update / state leaf dtype is not preserved "
+                                  "(or a lax.cond/while dtype TypeError)")
+                ctx.dist("K7_reproduced")
+            else:
+                ctx.violation(what, case)
         if oc["kind"] == "internal":
-            ctx.violation(f"internal error in {oc.get('raw_phase')}: {oc['cls']}: {oc['msg'][:160]} ({oc['where'][:80]})", case)
+            report(f"internal error in {oc.get('raw_phase')}: {oc['cls']}: {oc['msg'][:160]} ({oc['where'][:80]})", bool(oc.get("dtype_only")))
         for f in o["fails"][:3]:
-            ctx.violation(f, case)
+            report(f[6:] if f.startswith("DTYPE ") else f, f.startswith("DTYPE "))
         if oc["kind"] == "ok" and not o["fails"]:
             shapes = case["shapes"]
             if shapes:
@@ -926,7 +993,7 @@ def run(ctx):
         "message whose innermost frame is inside the precondition package",
         "scope: shard_optimizer_states is always combined with num_devices_for_pjit >= 1 and statistics/preconditioner partition specs "
         "(as its documentation requires) and never with batch_axis_name; parameter partition specs have one entry per dimension; "
-        "block_size >= 0; float32 parameters; dimensions >= 1; Sketchy memory_alloc=None; optax's adafactor state is an opaque node",
+        "block_size >= 0; float32 parameters in the main streams (other dtypes: separate oracle-only stream, known finding K7); dimensions >= 1; Sketchy memory_alloc=None; optax's adafactor state is an opaque node",
         "TrainingMetrics / FDDiagnostics subtrees are collapsed to one representative leaf when all their leaves agree",
         "multi-device pmap of a tree without statistics is traced with jax.eval_shape only (jaxlib CPU compiler segfault, not the package's)",
     ]
